@@ -1,5 +1,6 @@
 import Driver.Util
 import MpcVerif.Model.GarblerProc
+import MpcVerif.Model.TweakAcc
 
 namespace Drv.C04
 open Mpc.GProc
@@ -17,6 +18,19 @@ def parseEv (t : String) : Option PEv :=
     | _ => none
   else none
 
+/-- `c04acc acc <id0> <kinds>`: the tweaks used along a stream of gates under
+the code's accounting (`Model/TweakAcc.lean`: `tweakUses codeAcc`); `<kinds>` is
+one letter per gate (x n a o i), `/` between instruction circuits (ignored: the
+counter runs over the whole stream). -/
+def handleAcc (id0 kinds : String) : String :=
+  match id0.toNat? with
+  | none => "bad-op"
+  | some id =>
+    if kinds == "-" then Mpc.renderAcc [] else
+    match (kinds.toList.filter (· != '/')).mapM parseOp with
+    | some ops => Mpc.renderAcc (Mpc.tweakUses Mpc.codeAcc ops id)
+    | none => "bad-op"
+
 /-- Line-protocol handler of property C04.
 
 `c04proc <early 0|1> <event> <event> …`: a history of a garbler process that
@@ -25,6 +39,7 @@ serves overlapping sessions on one shared circuit value
 and whether its result loop decoded. -/
 def handle (args : List String) : String :=
   match args with
+  | ["acc", id0, kinds] => handleAcc id0 kinds
   | early :: evs =>
     match evs.mapM parseEv with
     | some es =>
